@@ -18,7 +18,8 @@ RULE = ("mode 1: the real is_private_or_reserved_host on IPv4 text for every fir
         "documentation IPv4, a public / link-local / unique-local / mapped IPv6), auto-advertise on / warn / off, private "
         "allowed or not, control host empty / loopback / private / public, with and without manual endpoints: after "
         "start_transport the advertised endpoints, the candidates, the conflict flag and the discovery hints of a manifest from "
-        "store_chunk are read back. Oracle (independent of the model, python ipaddress networks): a non-routable address is "
+        "store_chunk are read back; mode 3 additionally starts from a configuration that already carries auto-discovered (non-manual) "
+        "entries and starts the transport a second time after the operator changed mode / allow_private. Oracle (independent of the model, python ipaddress networks): a non-routable address is "
         "classified as such; with private not allowed no non-manual advertised endpoint and no transport hint carries a "
         "non-routable host; in off mode there is none at all, nor in warn mode with conflicting candidates. non-trivial = a "
         "non-routable input; distinct = distinct outputs")
@@ -152,6 +153,26 @@ def generate(rng, tier):
             ints += [1 if adv else 0] + lp(adv[0] if adv else "") + [adv[1] if adv else 0]
             ints += [echo_octet(34), 1 if s else 0] + lp(s or "")
             cases.append({"ints": ints, "tag": "node"})
+    # ---- mode 3: stale auto-discovered entries in the configuration from the start, and a second start of the transport
+    # after the operator changed mode / allow_private (what a refresh that returns early must still strip)
+    for _ in range({"quick": 60, "search": 100, "thorough": 400}[tier]):
+        mo, ap = rng.choice([(0, 0), (0, 1), (1, 1), (2, 0), (2, 1)])
+        s1 = rng.choice(stuns)
+        mo2, ap2 = rng.choice([(2, 0), (2, 0), (2, 1), (1, 0), (0, 0), (1, 1)])
+        s2 = rng.choice(stuns)
+        ch = rng.choice(hosts)
+        ms = rng.choice(manuals)
+        stale = rng.choice([[], [], [("10.9.9.9", 996)], [("192.168.7.7", 0), ("8.8.4.4", 995)], [("fe80::9", 994)]])
+        ints = [3, mo, ap] + lp(ch) + [41000, len(ms)]
+        for h, p in ms:
+            ints += lp(h) + [p]
+        ints += [0] + lp("") + [0]
+        ints += [echo_octet(34), 1 if s1 else 0] + lp(s1 or "")
+        ints += [len(stale)]
+        for h, p in stale:
+            ints += lp(h) + [p]
+        ints += [mo2, ap2, 1 if s2 else 0] + lp(s2 or "")
+        cases.append({"ints": ints, "tag": "node-restart"})
     return cases
 
 
@@ -167,7 +188,13 @@ def judge(case, impl, model):
             kind = "ipv4" if a.version == 4 else ("mapped" if a in MAPPED else "ipv6")
             return {"fail": f"C34|non-routable-{kind}-classified-routable", "nontrivial": True}
         return {"nontrivial": bool(nr)}
-    mo, ap = ints[1], ints[2]
+    phases = [(ints[1], ints[2])]
+    if ints[0] == 3:
+        # the second phase's mode / allow_private: the four ints before the final length-prefixed STUN address
+        k = len(ints) - 1
+        while k >= 0 and not (ints[k] == len(ints) - 1 - k):
+            k -= 1
+        phases.append((ints[k - 3], ints[k - 2]))
     p = 0
 
     def rd_list(n, width):
@@ -177,29 +204,31 @@ def judge(case, impl, model):
             ln = impl[p]; host = bytes(impl[p + 1:p + 1 + ln]).decode("latin1"); p += 1 + ln
             out.append((host,) + tuple(impl[p:p + width])); p += width
         return out
-    try:
-        n = impl[p]; p += 1
-        advertised = rd_list(n, 2)
-        n = impl[p]; p += 1
-        cands = rd_list(n, 2)
-        conflict = impl[p]; p += 1
-        n = impl[p]; p += 1
-        hints = rd_list(n, 2)
-    except Exception:
-        return {"fail": "C34|output-shape"}
-    autos = [("advertised endpoint", h) for h, _port, manual in advertised if not manual]
-    autos += [("manifest hint", h) for h, _port, control in hints if control == 0]
     nontrivial = False
-    for what, h in autos:
-        nr = non_routable_text(h)
-        if nr is None:
-            nr = h.lower() in ("localhost",)
-        if nr:
-            nontrivial = True
-            if not ap:
-                return {"fail": f"C34|non-routable-host-in-auto-{what.replace(' ', '-')}", "nontrivial": True}
-    if mo == 2 and autos:
-        return {"fail": "C34|auto-endpoint-published-with-auto-advertise-off", "nontrivial": True}
-    if mo == 1 and conflict and autos:
-        return {"fail": "C34|conflicting-candidates-published-in-warn-mode", "nontrivial": True}
-    return {"nontrivial": nontrivial or mo != 0}
+    for mo, ap in phases:
+        try:
+            n = impl[p]; p += 1
+            advertised = rd_list(n, 2)
+            n = impl[p]; p += 1
+            cands = rd_list(n, 2)
+            conflict = impl[p]; p += 1
+            n = impl[p]; p += 1
+            hints = rd_list(n, 2)
+        except Exception:
+            return {"fail": "C34|output-shape"}
+        autos = [("advertised endpoint", h) for h, _port, manual in advertised if not manual]
+        autos += [("manifest hint", h) for h, _port, control in hints if control == 0]
+        for what, h in autos:
+            nr = non_routable_text(h)
+            if nr is None:
+                nr = h.lower() in ("localhost",)
+            if nr:
+                nontrivial = True
+                if not ap:
+                    return {"fail": f"C34|non-routable-host-in-auto-{what.replace(' ', '-')}", "nontrivial": True}
+        if mo == 2 and autos:
+            return {"fail": "C34|auto-endpoint-published-with-auto-advertise-off", "nontrivial": True}
+        if mo == 1 and conflict and autos:
+            return {"fail": "C34|conflicting-candidates-published-in-warn-mode", "nontrivial": True}
+        nontrivial = nontrivial or mo != 0
+    return {"nontrivial": nontrivial}
